@@ -325,10 +325,13 @@ Definition dec_N (n : N) : str := dec_digits (S (N.to_nat (N.log2 n))) n [].
 Definition dec_Z (z : Z) : str :=
   if z <? 0 then 45%N :: dec_N (Z.to_N (- z)) else dec_N (Z.to_N z).
 
-(* ID: `Value::Number(n) if n.is_i64()` | `Value::String(s)` *)
+(* ID: `Value::Number(n) if n.is_i64() || n.is_u64()` | `Value::String(s)` *)
 Definition parse_id (v : gv) : outcome str :=
   match v with
-  | GInt z => match as_i64 z with Some _ => Ok (dec_Z z) | None => Err E_TYPE end
+  | GInt z => match as_i64 z with
+              | Some _ => Ok (dec_Z z)
+              | None => match as_u64 z with Some _ => Ok (dec_Z z) | None => Err E_TYPE end
+              end
   | GStr s => Ok s
   | _ => Err E_TYPE
   end.
@@ -455,7 +458,7 @@ Definition wf_gv (v : gv) : bool :=
 
 (* ------------------------------------------------------------ known classes -- *)
 (* 1: f32 offered a number beyond the f32 range (accepted as an infinity)
-   2: ID offered an integer above i64::MAX (rejected)
+   2: (repaired: ID used to reject integers above i64::MAX; the class is empty now)
    3: to_value of a non-finite float is null, which does not coerce back *)
 Definition known_parse (sc : scalar) (v : gv) : N :=
   match sc, v with
@@ -464,7 +467,6 @@ Definition known_parse (sc : scalar) (v : gv) : N :=
       | Some (_, M, E) => if representable b32 M E then 0%N else 1%N
       | None => 0%N
       end
-  | SID, GInt z => if i64_max <? z then 2%N else 0%N
   | _, _ => 0%N
   end.
 
